@@ -934,6 +934,13 @@ impl World {
                     for m in plan.adopt.clone() {
                         self.model.adopt(m, &post_raw);
                     }
+                    if let Op::Normalize { el } = &step.op {
+                        if let Some(m) = self.model.node_slot(*el) {
+                            if self.model.apply_normalize(m, &post_raw) > 0 {
+                                rep.probes.push("normalize_merged_adjacent_text");
+                            }
+                        }
+                    }
                     self.model.gc();
                     if plan.no_effect {
                         if let Some(d) = oracle::first_diff(&pre, &post) {
@@ -1889,6 +1896,8 @@ impl World {
             Op::Checkpoint { .. } => {}
             Op::Restart { .. } => {}
             Op::DtMap { .. } => {}
+            // the effect needs the observation (which node of a run survived): applied after observing
+            Op::Normalize { .. } => {}
             Op::Probe { .. } => {}
             Op::Reparse { doc } => {
                 // reading the maps of the document type twice gives the same answer (no edit in between)
